@@ -195,7 +195,11 @@ class PyBytesIO(object):
         self.closed = True
 
     def flush(self):
-        pass
+        self._chk()
+
+    def fileno(self):
+        import io
+        raise io.UnsupportedOperation('fileno')
 
     def readable(self):
         return True
